@@ -736,3 +736,7 @@ PROPS["C17"]["required_theorems"] += ["Failsafe.Props.C17." + t for t in ["launc
 PROPS["C09"]["required_theorems"] += ["Failsafe.Props.C09." + t for t in ["step_core", "after_return_step", "cancOk_step", "reach_cancOk", "after_return_run", "readings_after_return_on_traces"]]
 
 PROPS["C17"]["required_theorems"] += ["Failsafe.Props.C17." + t for t in ["core_n", "hedge_events_le_maxHedges"]]
+
+# the breaker's small statistics / state functions the sequential breaker model transcribes (FACTS body text)
+PROPS["C03"]["facts"] = PROPS["C03"].get("facts", []) + ['bodies/circuitstats:.newStats', 'bodies/circuitstats:countingStats.recordFailure', 'bodies/circuitstats:countingStats.recordSuccess', 'bodies/circuitstats:countingStats.reset', 'bodies/circuitstats:stat.remove', 'bodies/circuitstats:stat.reset', 'bodies/circuitstats:timedStats.recordFailure', 'bodies/circuitstats:timedStats.recordSuccess', 'bodies/circuitstats:timedStats.reset']
+PROPS["C04"]["facts"] = PROPS["C04"].get("facts", []) + ['bodies/circuitbreaker:circuitBreaker.IsClosed', 'bodies/circuitbreaker:circuitBreaker.IsHalfOpen', 'bodies/circuitbreaker:circuitBreaker.IsOpen', 'bodies/circuitbreaker:circuitBreaker.Reset', 'bodies/circuitbreaker:circuitBreaker.close', 'bodies/circuitbreaker:circuitBreaker.halfOpen', 'bodies/circuitbreaker:circuitBreaker.open', 'bodies/circuitbreaker:circuitBreaker.tryAcquirePermit', 'bodies/circuitstates:.newOpenState', 'bodies/circuitstates:closedState.remainingDelay', 'bodies/circuitstates:closedState.tryAcquirePermit', 'bodies/circuitstates:halfOpenState.remainingDelay', 'bodies/circuitstates:openState.checkThresholdAndReleasePermit']
